@@ -9,9 +9,79 @@ from contracts import c02
 
 VERIFY = ["trees.treeoutput.export_format"]
 TRUSTED = list(c02.TRUSTED) + ["contract of trees.get_label (proved under C20) used at the call site"]
-ASSUMPTIONS = list(c02.ASSUMPTIONS) + ["the node has word / morph / lemma / edge entries (values may be None, as every reader "
+ASSUMPTIONS = list(c02.ASSUMPTIONS) + [
+    "options_dict step: the value part of an option is ASCII, so that str.isdigit implies int() accepts it (isdigit is "
+    "also true of superscript digits, on which int() raises ValueError)","the node has word / morph / lemma / edge entries (values may be None, as every reader "
                                      "initialises them) and a numbered parent"]
 
 
 def build(reg):
     c02.build(reg)
+
+
+# ----------------------------------------------------------------------------------------------------------------------
+# misc.options_dict, loop body: one option string -> exactly one store into the result dict
+# ----------------------------------------------------------------------------------------------------------------------
+def lemma_options_dict_step(reg, repo):
+    """for an option without ':' the key is the option itself and the value True; otherwise (parts = the stripped option
+    split at ':') the key is parts[0] and the value is int(parts[1]) when parts[1] is all digits, else the string
+    parts[1]; nothing else is stored and no exception is possible"""
+    import ast
+    import z3
+    from pyvc.core import Contract, Exec, State, spec_split, IS_DIGIT, STR_TO_INT, STR_STRIP
+    from pyvc.heap import Heap
+    from pyvc.sym import VStr, VInt, VRec, tobool, tostr, toint, Unsupported
+    qual = "trees.misc.options_dict"
+    info = repo.fns.get(qual)
+    if info is None:
+        raise Unsupported("function %s no longer exists" % qual)
+    loops = [n for n in ast.walk(info.node) if isinstance(n, ast.For)]
+    if len(loops) != 1:
+        raise Unsupported("expected exactly one loop in options_dict (the contract no longer binds)")
+    c = Contract(target=qual, prop="C03", args={})
+    ex = Exec(repo, reg, info, c, prefix="C03.options_dict_step")
+    H = Heap.fresh("O")
+    st = State(heap=H)
+    opt = VStr(z3.String("o_option"))
+    st.env.update(dict(option=opt, result=VRec("storelog", {"log": []})))
+    ex.entry_heap = H.copy()
+    colon = z3.Contains(opt.t, z3.StringVal(":"))
+    parts = spec_split(VStr(STR_STRIP(opt.t)), ":")
+    p0, p1 = tostr(parts.get(0)), tostr(parts.get(1))
+    # block precondition: the value part is ASCII, where str.isdigit implies that int() accepts the string
+    # (str.isdigit is also true of e.g. superscript digits, which int() rejects)
+    from pyvc.core import IS_INT_LIT
+    st.assume(z3.Implies(IS_DIGIT(p1), IS_INT_LIT(p1)))
+    ex.obligations = []
+    outs = ex.exec_block(loops[0].body, st)
+    outs = ex._with_raises(st, outs)
+    vcs = []
+    for oi, o in enumerate(outs):
+        if o.kind != "normal":
+            raise Unsupported("the loop body of options_dict has an exceptional exit (%s)" % (o.exc,))
+        log = o.st.env["result"].fields["log"]
+        if len(log) != 1:
+            raise Unsupported("expected exactly one store into the result per option, found %d" % len(log))
+        key, val = log[0]
+        keyt = tostr(key) if not isinstance(key, str) else z3.StringVal(key)
+        goals = {"key": keyt == z3.If(colon, p0, opt.t)}
+        if val is True:
+            goals["value_true_iff_no_colon"] = z3.Not(colon)
+        elif isinstance(val, VInt):
+            goals["value_int_of_digits"] = z3.And(colon, IS_DIGIT(p1), toint(val) == STR_TO_INT(p1))
+        elif isinstance(val, VStr):
+            goals["value_string_when_not_digits"] = z3.And(colon, z3.Not(IS_DIGIT(p1)), tostr(val) == p1)
+        else:
+            raise Unsupported("unexpected value %r stored by options_dict" % (val,))
+        for gname, g in goals.items():
+            vcs.append(("path%d.%s" % (oi, gname), list(o.st.pc), g))
+    if len(outs) != 3:
+        raise Unsupported("expected three cases (no colon / digits / other) in the loop body of options_dict")
+    for ob in ex.obligations:
+        vcs.append(("safe.%s" % ob.name.split(".", 2)[-1], list(ob.pc), ob.goal))
+    return vcs
+
+
+lemma_options_dict_step.target = "trees.misc.options_dict"
+LEMMAS = {"options_dict_step": lemma_options_dict_step}
+TRUSTED = TRUSTED + ["str.strip / str.split(':') / str.isdigit / int(): uninterpreted with the axioms listed by the engine"]
